@@ -10,6 +10,7 @@ import Apimodel.Refs
 import Apimodel.Versions
 import Apimodel.Generics
 import Apimodel.Aggregate
+import Apimodel.MetaChain
 import Apimodel.AcceptThm
 import Apimodel.NoCrashThm
 import Apimodel.ErrorsThm
@@ -412,6 +413,12 @@ def handle (line : String) : String :=
           pure (Json.mkObj [("id", id), ("flattened", ll a.flattened), ("matched", ll a.matched),
                             ("additional", match a.additional with | some g => Json.arr (g.map Json.str).toArray | Option.none => Json.null),
                             ("unexpected", Json.arr (a.unexpected.map Json.str).toArray)])
+      | "metachain" => do
+          let pairs (x : Json) : P (List (String × String)) := do (← arr x).toList.mapM (fun p => do let a ← arr p; pure ((← str a[0]!), (← str a[1]!)))
+          let fm ← pairs (← j.getObjVal? "field")
+          let annos ← (← arr (← j.getObjVal? "annos")).toList.mapM pairs
+          let key ← str (← j.getObjVal? "key")
+          pure (Json.mkObj [("id", id), ("value", match Meta.fullMetadata fm annos key with | some v => Json.str v | Option.none => Json.null)])
       | op => throw s!"unknown op {op}"
     match r with
     | .ok j => j.compress
